@@ -1,8 +1,10 @@
-import MiniconfVerif.Lemmas.Walk
+import MiniconfVerif.Lemmas.WalkFrame
 
 /-! # C01 — by-key write hits exactly the designated leaf; failed access changes nothing
-(first instalment: the "changes nothing" half for every tree, state, key source and
-(de)serializer; the `setLeaf` frame theorem is being added, see DESIGN.md §7 C01) -/
+
+Model: `Tree.walk` (Model/Tree.lean); `Tree.One t t'` = "`t'` is `t` with the value of exactly
+one leaf position replaced, everything else — structure, attributes, runtime state of
+Options/enums/wrappers, every other value — identical". -/
 namespace MiniconfVerif.C01
 open MiniconfVerif
 
@@ -18,6 +20,30 @@ theorem read_never_modifies (io : Io) (t : Tree) (ks : KeySrc) :
     (t.walk io .ser ks).tree = t ∧ (t.walk io .refAny ks).tree = t :=
   ⟨walk_read_tree io .ser rfl t ks, walk_read_tree io .refAny rfl t ks⟩
 
+/-- **Frame**: whatever the operation, key, codec and outcome, a by-key access changes the value
+of at most one leaf and nothing else in the tree. -/
+theorem at_most_one_leaf_changes (io : Io) (op : Op) (t : Tree) (ks : KeySrc) :
+    (t.walk io op ks).tree = t ∨ t.One (t.walk io op ks).tree :=
+  walk_one io op t ks
+
+/-- **The designated leaf, and read-back**: after a deserializing write that stored `v'`
+(whether it then reported `Ok`, or the documented exceptions — a validator rejection or a
+finalization error — occurred), every successful by-key read (serialize or immutable any,
+with any serializer) through the same key, or through any key source that agrees with it
+step by step, returns `v'`: the leaf that was written is the one the key designates. -/
+theorem read_after_write {R : KeySrc → KeySrc → Prop} (hR : Bisim R) (io io2 : Io) (rop : Op)
+    (hr : rop.isRead = true) (t : Tree) (ks ks2 : KeySrc) (heq : R ks ks2) (v' : Val)
+    (hw : (t.walk io .de ks).val = some v')
+    (hok : ((t.walk io .de ks).tree.walk io2 rop ks2).res.isOk = true) :
+    ((t.walk io .de ks).tree.walk io2 rop ks2).val = some v' := by
+  rw [← walk_bisim hR io2 rop _ ks ks2 heq] at hok ⊢
+  exact walk_readback io io2 rop hr t ks v' hw hok
+
+/-- chained and concatenated keys are such equivalent sources -/
+theorem chain_equivalent (io : Io) (op : Op) (t : Tree) (a b : List Key) :
+    t.walk io op (.chain (.list a) (.list b)) = t.walk io op (.list (a ++ b)) :=
+  walk_bisim chainRel_bisim io op t _ _ ⟨a, b, rfl, rfl⟩
+
 /-- the documented exception: after a validator rejection the leaf below has been written.
 Witness that the exclusion in `failed_access_changes_nothing` is necessary. -/
 def exT : Tree := .node false none (.named ["v"]) [({ id := 1, validate := some (.err "no") }, .leaf (.leaf (.int false 8)) (.int 1))]
@@ -27,5 +53,8 @@ example : (exT.walk exIo .de (.list [.str ['v']])).tree =
     .node false none (.named ["v"]) [({ id := 1, validate := some (.err "no") }, .leaf (.leaf (.int false 8)) (.int 9))] := by
   rfl
 example : (exT.walk exIo .de (.list [.str "w".toList])).res.keepsTree = true := by decide
+example : (exT.walk exIo .de (.list [.str ['v']])).val = some (.int 9) := by rfl
+example : ((exT.walk exIo .de (.list [.str ['v']])).tree.walk exIo .ser (.list [.str ['v']])).val = some (.int 9) := by
+  rfl
 
 end MiniconfVerif.C01
